@@ -41,7 +41,7 @@ EXPLANATION = ("Exhaustive sub-space (both tiers): every labelled graph up to is
                "Everything else is seeded random / "
                "corpus sampling.  Theorems (coq/props/C11.v, all closed under the global context): C11_vocabulary, C11_aut_count, C11_aut_group, "
                "C11_vf2_contract, C11_vf2_contract_items, C11_orbits_exact, C11_orbits_partition, C11_components, C11_anchors, C11_object_state, C11_wl_never_splits, C11_wl_partition, C11_wfb_sound, "
-               "C11_dedup_sublist, C11_dedup_first_of_class, C11_dedup_idempotent, C11_partial_prune, C11_partial_prune_hosts, C11_prune_complete, C11_rep_ok, C11_prune_complete_aut, C11_prune_first_of_class, C11_prune_same_results, C11_configured_labels_only, C11_key_options, C11_rule_labels, C11_orbit_accuracy, C11_aut_observable, C11_wl_never_splits_reported, C11_orbit_accuracy_all, C11_orbit_order, C11_views, C11_dedup_singletons_sound, C11_dedup_orbit_sets_merge_unrelated.")
+               "C11_dedup_sublist, C11_dedup_first_of_class, C11_dedup_idempotent, C11_partial_prune, C11_partial_prune_hosts, C11_prune_complete, C11_rep_ok, C11_prune_complete_aut, C11_prune_first_of_class, C11_prune_same_results, C11_configured_labels_only, C11_key_options, C11_rule_labels, C11_orbit_accuracy, C11_aut_observable, C11_wl_never_splits_reported, C11_orbit_accuracy_all, C11_orbit_order, C11_views, C11_dedup_singletons_sound, C11_dedup_orbit_sets_merge_unrelated, C11_orbits_no_swaps, C11_count_no_swaps.")
 TRUSTED_BASE = [
     "Coq 8.16.1 kernel + vm_compute (no native_compute)",
     "hand-written model coq/model/C11_Model.v tied to synkit/Graph/Matcher/{automorphism,auto_est,dedup_matches}.py and the pruning call of "
@@ -206,11 +206,12 @@ def _frac(x, den):
     return [num if abs(num / den - x) < 1e-9 else -1, den]
 
 
-def _oa_obs(approx, exact, confusion=True):
+def _oa_obs(approx, exact, confusion=True, brute=True):
     """OrbitAccuracy(approx, exact).compute(): [0, exact-match, (confusion rows,) purity, pairwise accuracy] or [1] = ValueError"""
     from synkit.Graph.Matcher.orbit import OrbitAccuracy
     try:
-        oa = OrbitAccuracy(approx, exact).compute()
+        oa = OrbitAccuracy(approx, exact)
+        oa = oa.compute() if brute else oa.compute(brute_force_pairs=False)      # the fallback delegates to the same count
     except ValueError:
         return [1]
     m = oa.metrics
@@ -773,6 +774,8 @@ def impl(case):
     if k == "keys":
         return _aut_obs_keys(GG.to_nx(case["g"]), case["nk"], case["ek"])
     if k == "orbacc":
+        if case.get("frozen"):          # the documented input form: iterables of frozensets
+            return _oa_obs((frozenset(o) for o in case["A"]), [frozenset(o) for o in case["E"]], brute=False)
         return _oa_obs(case["A"], case["E"])
     if k == "views":
         return _impl_views(case)
